@@ -119,6 +119,10 @@ fn c02(src: &str) -> R {
     if last.b0 != src.len() {
         return Err(format!("EOF at {} not at end {}", last.b0, src.len()));
     }
+    // "at the end of the text" in both coordinates
+    if last.c0 as usize != src.chars().count() {
+        return Err(format!("EOF char offset {} is not the end of the text ({} scalar values)", last.c0, src.chars().count()));
+    }
     if cat != src[bom_len(src)..] {
         return Err("concatenated raw texts differ from the source".into());
     }
